@@ -124,6 +124,40 @@ def module_plumbing(ctx: Ctx, recs: List[Dict[str, Any]]) -> None:
             ctx.violation(f"module:{greek}", f"the default {greek} of a BS module is not the automatic derivative of the module's own price", {"point": pt, "pricer": pr, "expected": e, "observed": got.tolist()})
 
 
+def bound_modules_after_strike_change(ctx: Ctx) -> None:
+    """A module built from a derivative whose strike is changed afterwards: whichever strike the module then uses, its Greeks are
+    the derivatives of ITS OWN price (all five methods must use the same one)."""
+    from checks.c07 import classes, make_derivative
+    from pfhedge.nn import BlackScholes
+    lm0 = torch.tensor([-0.25, -0.0625, 0.125], dtype=DT)
+    for p in classes():
+        d = make_derivative(p, True, 1.0)
+        m = BlackScholes(d)
+        d.strike = 2.5                                               # the contract is re-struck after the module was built
+        spot = (lm0.exp() * 1.0).clone().requires_grad_(True)
+        t = torch.full_like(lm0, 0.5).requires_grad_(True)
+        v = torch.full_like(lm0, 0.25).requires_grad_(True)
+        kw = {"log_moneyness": (spot / 1.0).log(), "time_to_maturity": t, "volatility": v}
+        if p in ("american_binary", "lookback"):
+            kw["max_log_moneyness"] = torch.tensor([-0.125, -0.0625, 0.25], dtype=DT)
+        try:
+            price = m.price(**kw)
+            (dl,) = torch.autograd.grad(price.sum(), spot, create_graph=True)
+            (gm,) = torch.autograd.grad(dl.sum(), spot, retain_graph=True)
+            vg, dt_ = torch.autograd.grad(price.sum(), [v, t])
+            ad = {"delta": dl.detach(), "gamma": gm.detach(), "vega": vg, "theta": -dt_}
+            plain = {k: x.detach() for k, x in kw.items()}
+            got = {g: getattr(m, g)(**{k: x.clone() for k, x in plain.items()}).detach() for g in ad}
+        except Exception as ex:
+            ctx.violation(f"bound-module:{p}:raises", f"a module built from a {p} derivative raised {type(ex).__name__} after the derivative's strike was changed", {"error": repr(ex)[:300]})
+            continue
+        for g in ad:
+            ctx.count(n=1)
+            if not bool(((got[g] - ad[g]).abs() <= 1e-7 * (ad[g].abs() + 1e-6)).all()):
+                ctx.violation(f"bound-module:{p}:{g}", f"{type(m).__name__} built from a derivative whose strike was changed afterwards: {g} is not the derivative of the module's own price "
+                              "(the methods use different strikes)", {"greek": got[g].tolist(), "derivative_of_own_price": ad[g].tolist()})
+
+
 def closed_forms(ctx: Ctx) -> Dict[str, int]:
     """Every closed-form Greek (functional forms and modules) against the derivative of the same product's own price on the
     lattice of BSAlgebra.tla: which Greek is which derivative (variable, order, sign) comes from the specification, the
@@ -192,6 +226,10 @@ def check(ctx: Ctx) -> None:
     closed_forms(ctx)
     from checks import bs_common
     bs_common.strike_spelling(ctx, "greeks")
+    bs_common.inplace_between_calls(ctx)
+    from lib.bsgrid import Grid
+    bs_common.batch_consistency(ctx, Grid("quick"), greeks=("delta", "gamma", "vega", "theta"))
+    bound_modules_after_strike_change(ctx)
     torch.set_default_dtype(torch.float32)
     res = ctx.tlc("MC_AutoGreek", "MC_AutoGreek.cfg", workers=8)
     require_actions(res, ["ParseLeaf", "Rederive", "Filter", "Differentiate"])
